@@ -110,7 +110,11 @@ def instances(tier):
         out.append(Instance("C02", "sys_common:s_run", dict(shape=shape, oracle="c02", opts={"rt": names[-2:], "ta": True}),
                             name="S/" + sid, uf=True, cover=["solved"], weight=20, max_paths=3000))
     if tier == "thorough":
-        from ..shapes import pair_cover
+        from ..shapes import pair_cover, enumerate_trees
+        for sid, shape in enumerate_trees(3).items():
+            names = [n["name"] for n in shape["nodes"] if n["kind"] != "Source"]
+            out.append(Instance("C02", "sys_common:s_run", dict(shape=shape, oracle="c02", opts={"rt": names[:1], "ta": True}),
+                                name="S/enum3/" + sid, uf=True, cover=["solved"], weight=8, max_paths=6000, time_limit=3000))
         for sid, shape in pair_cover().items():
             out.append(Instance("C02", "sys_common:s_run", dict(shape=shape, oracle="c02", opts={"rt": ["X"], "ta": True}),
                                 name="S/pair/" + sid, uf=True, cover=["solved"], weight=15, max_paths=6000, time_limit=3000))
